@@ -571,6 +571,9 @@ class ServeMpsMedia(MediaRequestBase):
             start_time += seg_time
         mod_seg, seg_start_tc, origin_time = representation.get_segment_index(
             start_time)
+        if origin_time > 0:
+            # the source media of a period does not loop
+            raise ValueError('Segment beyond end of media')
 
         origin_time = -seg_start_tc
         if seg_time is not None:
